@@ -203,6 +203,51 @@ fn quiet_burst_body(n: usize) -> Result<(), String> {
     Ok(())
 }
 
+/// two registered routes; while the router is not running, a backlog builds up on the newer route
+/// first, then on the older one: one large select batch that is not in id order
+fn cross_backlog_body(n: u32) -> Result<(), String> {
+    let proxy = Arc::new(RouterProxy::new());
+    let log: Arc<Mutex<Vec<(usize, u32)>>> = Arc::new(Mutex::new(Vec::new()));
+    let (done_tx, done_rx) = crossbeam_channel::unbounded::<usize>();
+    let mut txs = Vec::new();
+    for i in 0..2usize {
+        let (tx, rx) = ipc::channel::<u32>().map_err(|e| e.to_string())?;
+        let g = Guard { route: i, drops: Arc::new(Mutex::new(Vec::new())), done: done_tx.clone() };
+        let lg = log.clone();
+        proxy.add_route(
+            rx.to_opaque(),
+            Box::new(move |m| {
+                let _k = &g;
+                lg.lock().unwrap().push((i, m.to::<u32>().unwrap_or(999_999)));
+            }),
+        );
+        txs.push(tx);
+    }
+    drop(done_tx);
+    // let the router register both routes and go back to waiting
+    crate::sched::settle();
+    for k in 0..n {
+        txs[1].send(k).map_err(|e| e.to_string())?;
+    }
+    for k in 0..n {
+        txs[0].send(k).map_err(|e| e.to_string())?;
+    }
+    drop(txs);
+    for _ in 0..2 {
+        done_rx.recv().map_err(|_| "a callback was never dropped".to_string())?;
+    }
+    let lg = log.lock().unwrap().clone();
+    for i in 0..2usize {
+        let got: Vec<u32> = lg.iter().filter(|(r, _)| *r == i).map(|(_, v)| *v).collect();
+        let want: Vec<u32> = (0..n).collect();
+        if got != want {
+            return Err(format!("route {}: handler saw {:?} instead of 0..{} in order", i, got, n));
+        }
+    }
+    std::mem::forget(proxy);
+    Ok(())
+}
+
 /// n tasks register one route each and send two messages on it
 fn many_tasks_body(n: usize) -> Result<(), String> {
     let proxy = Arc::new(RouterProxy::new());
@@ -258,7 +303,9 @@ pub fn scenarios(tier: Tier) -> Vec<Scenario> {
         cfg.strict_deviations = true;
         let p = P { routes: vec![Route { kind: Kind::Callback, pre: 40, post: 10, by: 0, big: false, cb_yield: false }, Route { kind: Kind::Crossbeam, pre: 0, post: 50, by: 0, big: false, cb_yield: false }] };
         v.push(Scenario::new("backlog 40+10 / 0+50 (every non-default choice counts)", cfg.clone(), if tier.is_quick() { 1 } else { 2 }, move || body(&p)));
-        v.push(Scenario::new("six registering tasks (every non-default choice counts)", cfg, if tier.is_quick() { 1 } else { 2 }, move || many_tasks_body(6)));
+        v.push(Scenario::new("six registering tasks (every non-default choice counts)", cfg.clone(), if tier.is_quick() { 1 } else { 2 }, move || many_tasks_body(6)));
+        v.push(Scenario::new("backlog on the newer route first, then on the older one (12 + 12)", cfg.clone(), if tier.is_quick() { 1 } else { 2 }, move || cross_backlog_body(12)));
+        v.push(Scenario::new("backlog on the newer route first, then on the older one (30 + 30)", cfg, 0, move || cross_backlog_body(30)));
     }
     let mut add = |routes: Vec<Route>, bound: u32| {
         let p = P { routes };
